@@ -87,6 +87,12 @@ package kfmt
 //@ spec uval64(v interface{}) uint64 = ite(typeis(v, uint8), uint64(unbox(v, uint8)), ite(typeis(v, uint16), uint64(unbox(v, uint16)), ite(typeis(v, uint32), uint64(unbox(v, uint32)), ite(typeis(v, uint64), unbox(v, uint64), uint64(unbox(v, uintptr))))))
 //@ spec magOf(v interface{}) uint64 = ite(isUns(v), uval64(v), ite(sval64(v) < 0, uint64(-sval64(v)), uint64(sval64(v))))
 //@ pred negOf(v interface{}) = isSig(v) && sval64(v) < 0
+// digit k (least significant first) of m in base b, kept uninterpreted so that the remainder
+// operation appears only where a digit is actually produced
+//@ ufun digv(m uint64, b uint64, k int) uint64
+//@ axiom digDef(m uint64, b uint64, k int): digv(m, b, k) == q(m, b, k) % b
+// the character of digit value d (d < 16)
+//@ spec digitCh(d uint64) uint8 = ite(d < 10, uint8(d) + '0', uint8(d - 10) + 'a')
 // effective width: widths above 31 count as 31
 //@ spec widthOf(padLen int) int = ite(padLen >= 32, 31, ite(padLen < 0, 0, padLen))
 
@@ -109,10 +115,14 @@ package kfmt
 //@   loop 2 cutpoint
 //@   loop 1 (right < maxBufSize) invariant digits: right >= 0 && right <= 21 && left == 0 && bufsOK() && divider == uint64(base) && padCh == ite(base == 10, ' ', '0') && uval == q(magOf(v), uint64(base), right) && forall(k, int, 1 <= k && k <= right ==> q(magOf(v), uint64(base), k) != 0) && forall(k, int, 0 <= k && k < right ==> numFmtBuf[k] != ' ')
 //@   loop 1 invariant meta: (isUns(v) || isSig(v)) && (sval < 0 <==> negOf(v)) && padLen == ite(old(padLen) >= 32, 31, old(padLen)) && outLen == old(outLen) && out == old(out) && msgsSame()
-//@   loop 1 use qS(magOf(v), uint64(base), right)
-//@   loop 2 (right-left < padLen) invariant pads: right >= 1 && right <= 31 && left == 0 && bufsOK() && padCh == ite(base == 10, ' ', '0') && numFmtBuf[0] != ' ' && (right <= 22 || right <= padLen) && forall(k, int, 0 <= k && k < right ==> numFmtBuf[k] != ' ' || (base == 10 && k >= 1)) && forall(k, int, 22 <= k && k < right ==> numFmtBuf[k] == padCh)
+//@   loop 1 invariant value: forall(k, int, 0 <= k && k < right ==> numFmtBuf[k] == digitCh(digv(magOf(v), uint64(base), k)) && digv(magOf(v), uint64(base), k) < 16)
+//@   loop 1 use qS(magOf(v), uint64(base), right); digDef(magOf(v), uint64(base), right)
+//@   loop 2 (right-left < padLen) ghost nd = right
+//@   loop 2 invariant pads: right >= 1 && right <= 31 && left == 0 && bufsOK() && padCh == ite(base == 10, ' ', '0') && nd >= 1 && nd <= 22 && nd <= right && (right <= 22 || right <= padLen) && forall(k, int, nd <= k && k < right ==> numFmtBuf[k] == padCh)
+//@   loop 2 invariant value: forall(k, int, 0 <= k && k < nd ==> numFmtBuf[k] == digitCh(digv(magOf(v), uint64(base), k)) && digv(magOf(v), uint64(base), k) < 16)
+//@   loop 2 invariant count: q(magOf(v), uint64(base), nd) == 0 && forall(k, int, 1 <= k && k < nd ==> q(magOf(v), uint64(base), k) != 0)
 //@   loop 2 invariant meta: (isUns(v) || isSig(v)) && (sval < 0 <==> negOf(v)) && padLen == ite(old(padLen) >= 32, 31, old(padLen)) && outLen == old(outLen) && out == old(out) && msgsSame()
-//@   loop 3 (numFmtBuf[end] == ' ') invariant scan: end >= 0 && end <= right - 1 && (base != 10 ==> end == right - 1) && (base == 10 && right > 22 ==> end < right - 1 || numFmtBuf[end] == ' ')
+//@   loop 3 (numFmtBuf[end] == ' ') invariant scan: nd - 1 <= end && end <= right - 1 && (base != 10 ==> end == right - 1) && (base == 10 ==> forall(k, int, end < k && k < right ==> numFmtBuf[k] == ' '))
 //@   loop 4 (left < right) invariant rev: left >= 0 && right <= 32 && left + right == end - 1 && left <= right + 1 && end >= 1 && end <= 33 && bufsOK() && msgsSame() && outLen == old(outLen) && out == old(out)
 
 // Fprintf: for ANY format string and arguments no index, slice or type-assertion panic; the
